@@ -212,6 +212,46 @@ def run(ctx: Ctx) -> None:
                 p = "/".join(str(x) for x in path)
                 generic = "/".join("*" if isinstance(x, int) else str(x) for x in path)
                 ctx.finding("R2", f"root {root} | {generic} | {'kept' if 'kept' in why else 'dropped' if 'missing' in why else 'differs'}", f"mappyfile/schemas/{root}.json", f"version {v}: {p}: {why}")
+    # one Validator asked for several root types at one version (validate([map, layer], version=v), or
+    # get_versioned_schema twice): each root has its own expanded tree (loaded and cached per name and version),
+    # and the later ones must come out pruned like the first - at every depth, behind every $ref
+    hist_cuts = [c for c in cuts if c in (6.0, 7.6, 8.0)] or cuts[:2]
+    for seq in (("map", "layer"), ("map", "class"), ("layer", "style", "map")):
+        for v in hist_cuts if ctx.tier == "thorough" else hist_cuts[-1:]:
+            fresh_by: dict = {}
+
+            def expanded_hist(I_, self_obj, args, kwargs, fresh_by=fresh_by):
+                name = args[0]
+                fr_ = fresh_by.setdefault(name, smod.Schemas())
+                return fr_.expanded_type(name) if name in fr_.type_files else fr_.expanded(name + ".json")
+
+            def proxy_attr(fr, obj, name, fresh_by=fresh_by):
+                # jsonref: the object standing where a "$ref" stood knows the reference it came from
+                if name == "__reference__":
+                    for fr_ in fresh_by.values():
+                        for fn_, doc_ in fr_._expanded.items():
+                            if doc_ is obj:
+                                return {"$ref": fn_}
+                return NotImplemented
+
+            Ih = e.interp(stubs={"validator.Validator.get_expanded_schema": expanded_hist, "hook:dict_attr": proxy_attr}, allow_fork=False, max_depth=80, max_steps=8_000_000)
+            inst_h = models.construct(e, "validator.Validator")
+            for root in seq:
+                outs = Ih.explore("validator.Validator.get_versioned_schema", lambda root=root: (inst_h, [v, root], {}))
+                if len(outs) != 1 or outs[0].kind != "return":
+                    ctx.finding("R2", f"one Validator, roots {seq}, version {v}", "mappyfile/validator.py", f"get_versioned_schema({v}, {root!r}) fails: {[(o.kind, o.exc) for o in outs]}")
+                    break
+                ref = smod.Schemas()
+                ref_tree = ref.expanded_type(root)
+                if "properties" in ref_tree:
+                    reference_prune(ref_tree["properties"], v, set())
+                diffs = diff_trees(outs[0].value, ref_tree)
+                n_cmp += 1
+                if not diffs:
+                    ctx.ok("R2", f"one Validator, roots {seq}: {root} at version {v}", f"mappyfile/schemas/{root}.json", "pruned tree equals the reference")
+                for path, why in diffs[:6]:
+                    generic = "/".join("*" if isinstance(x, int) else str(x) for x in path)
+                    ctx.finding("R2", f"one Validator, roots {seq}: {root} | {generic}", f"mappyfile/schemas/{root}.json", f"version {v}, after the same Validator served {seq[: seq.index(root)]}: {'/'.join(str(x) for x in path)}: {why}")
     ctx.units["pruned_trees_compared"] = n_cmp
 
     # ---- R3 cache histories ----------------------------------------------------------------------------
